@@ -65,4 +65,18 @@ def mergeContents (cols : List (List JObj)) : FinMap := (mergeObjs cols).map (fu
 def mergeLookup (cols : List (List JObj)) (ns : String) : FinMap :=
   ((mergeObjs cols).filter (fun o => o.ns == ns)).map (fun o => (o.key, o.tok))
 
+/-! ### `krt.NestedJoinWithMergeCollection` (stream `joinn`): the merge runs over the collections that are
+    currently members of the outer collection, in the (undefined) order of its `List()`; the harness's
+    merge function is order independent (values sorted) and never nil for a non-empty input. -/
+
+def nmergeOne (cols : List (List JObj)) (k : Key) : Option JObj :=
+  match cols.filterMap (fun c => jget c k) with
+  | [] => none
+  | o :: rest =>
+    let vs := (o :: rest).map (·.val)
+    let v := "+".intercalate (vs.mergeSort (fun a b => decide (a ≤ b)))
+    some { key := k, ns := o.ns, name := o.name, val := v, tok := o.ns ++ ";" ++ o.name ++ ";;;;;" ++ v }
+
+def nmergeObjs (cols : List (List JObj)) : List JObj := (mergeKeys cols).filterMap (nmergeOne cols)
+
 end IstioModel.C16
